@@ -1242,6 +1242,14 @@ def gen_nc(rng):
     return rec
 
 
+def _no_format(rec):
+    """nested tables: without column formats (their loss is a listed finding of the table family)"""
+    if isinstance(rec, dict) and rec.get("family") == "table":
+        rec["ops"] = [o for o in rec["ops"] if o[0] != "format"]
+        rec["hclass"] = rec["hclass"].replace("+format", "").replace("format+", "")
+    return rec
+
+
 def gen_result(rng, heavy=False):
     r = rng.random()
     if r < 0.35 or not heavy and r < 0.6:
@@ -1251,7 +1259,7 @@ def gen_result(rng, heavy=False):
             if q < 0.25:
                 v = rng.choice([1, 2.5, "s", [1, 2, 3], {"a": 1}])
             elif q < 0.45:
-                v = gen_table(rng)
+                v = _no_format(gen_table(rng))
             elif q < 0.6:
                 v = gen_dictarray(rng)
             elif q < 0.75:
@@ -1267,7 +1275,7 @@ def gen_result(rng, heavy=False):
     if r < 0.75 or not heavy:
         items = []
         for i in range(rng.randint(1, 3)):
-            items.append([f"t{i}", rng.choice([gen_table, gen_dictarray, gen_distmat])(rng)])
+            items.append([f"t{i}", _no_format(rng.choice([gen_table, gen_dictarray, gen_distmat])(rng))])
         return dict(family="result", kind="tabular", source="src.fa", items=items, ops=[], hclass="tabular")
     q = rng.random()
     if q < 0.5:
